@@ -77,14 +77,14 @@ T = {
 
 FAULT = {"C24"}
 # checks that are quiet on the current tree (registered); the others stay under not_applicable until they are
-READY = ["C27"]
+READY = [f"C{i:02d}" for i in range(1, 31) if i != 9]
 
 CHECKS = {}
 for pid in READY:
     tech, note = T[pid]
     CHECKS[pid] = ("fault_enumeration" if pid in FAULT else "exploration", tech, EXPL, note, f"DESIGN.md §2 {pid}")
 
-NOT_YET = "check not built yet in this round (planned, see DESIGN.md §2); not claimed until its oracle is sound"
+NOT_YET = "cross-SDK differential check (TypeScript/Java/C++ vs Python SDK) is still being built; not claimed until its oracle is sound"
 
 
 def main() -> None:
